@@ -17,12 +17,12 @@ import (
 
 func vNewRootClient() *client {
 	return &client{
-		clientType: region.RegionClient,
-		regions:    keyRegionCache{logger: vLogger(), regions: b.TreeNew[[]byte, hrpc.RegionInfo](region.Compare)},
-		clients:    clientRegionCache{logger: vLogger(), regions: map[hrpc.RegionClient]map[hrpc.RegionInfo]struct{}{}},
+		clientType:     region.RegionClient,
+		regions:        keyRegionCache{logger: vLogger(), regions: b.TreeNew[[]byte, hrpc.RegionInfo](region.Compare)},
+		clients:        clientRegionCache{logger: vLogger(), regions: map[hrpc.RegionClient]map[hrpc.RegionInfo]struct{}{}},
 		metaRegionInfo: region.NewInfo(0, []byte("hbase"), []byte("meta"), []byte("hbase:meta,,1"), nil, nil),
-		done:   make(chan struct{}),
-		logger: vLogger(),
+		done:           make(chan struct{}),
+		logger:         vLogger(),
 	}
 }
 
